@@ -71,7 +71,7 @@ TStep ==
         /\ Finish(IF ~(e.to_modpath /\ e.from_moddir) THEN "move-endpoints"
                   ELSE IF ~e.src_complete THEN "inv:ModuleIntegrity(incomplete file moved to the module path)" ELSE "", e)
      \* a rename of something that is not a complete module onto the module path: judged, not merely "not enabled"
-     \/ /\ e.ev = "move" /\ e.to_modpath /\ ~e.src_complete /\ pc[e.p] \in {"Mkstemp", "Write", "Close", "Move"} /\ tmp[e.p].bytes # 2
+     \/ /\ e.ev = "move" /\ e.to_modpath /\ ~e.src_complete /\ pc[e.p] \in {"Mkstemp", "Write", "Close", "Move", "Failed"} /\ tmp[e.p].bytes # 2
         /\ Stutter /\ Finish("inv:ModuleIntegrity(incomplete file moved to the module path)", e)
      \/ /\ e.ev = "writer" /\ CallWriter(e.p) /\ Finish(C(e.bytes_ok /\ e.path_ok, "module_writer-arguments"), e)
      \/ /\ e.ev = "load" /\ LoadFrom(e.p, TProbing \cup {"Load"}) /\ Finish(C(e.from = mod.from /\ e.magic = mod.magic, "load-content"), e)
@@ -87,6 +87,20 @@ TStep ==
                   ELSE IF e.rendered \notin loc[e.p].seen \/ (loc[e.p].seen = {src.ver} /\ e.rendered # src.ver)
                      THEN "inv:RendersCurrent(finished without importing the module file and renders another version)"
                   ELSE "", e)
+     \* an injected failure of a writing call, and the exception the constructor then raises; a failing implementation
+     \* may instead finish from memory, if what it renders is the current source
+     \/ /\ e.ev = "fail" /\ Fail(e.p) /\ (e.mid <=> (pc[e.p] = "Write" /\ tmp'[e.p].bytes = 1)) /\ Finish("", e)
+     \/ /\ e.ev = "exc" /\ Raise(e.p) /\ Finish("", e)
+     \* clean-up the failing process does before it raises: closing the temp file changes nothing; publishing it is
+     \* judged like any other rename onto the module path (complete: a rewrite; incomplete: the disjunct above)
+     \/ /\ e.ev = "close" /\ pc[e.p] = "Failed" /\ Stutter /\ Finish("", e)
+     \/ /\ e.ev = "move" /\ pc[e.p] = "Failed" /\ e.to_modpath /\ e.src_complete /\ tmp[e.p].st # "none"
+        /\ mod' = [st |-> "complete", from |-> tmp[e.p].from, magic |-> Magic, mt |-> now]
+        /\ tmp' = [tmp EXCEPT ![e.p] = NoTmp] /\ loc' = Published(e.p, tmp[e.p].from) /\ last' = [ev |-> "move", p |-> e.p]
+        /\ UNCHANGED <<now, src, dir, pc>> /\ Finish("", e)
+     \/ /\ e.ev = "done" /\ pc[e.p] = "Failed"
+        /\ Go(e.p, "idle", Idle, [ev |-> "done", rendered |-> e.rendered, rewrote |-> FALSE]) /\ UNCHANGED <<now, src, mod, tmp, dir>>
+        /\ Finish(C(e.rendered = src.ver, "inv:RendersCurrent(after a failed write the Template renders another version)"), e)
      \/ /\ e.ev = "crash" /\ Crash(e.p) /\ (e.mid <=> (pc[e.p] = "Write" /\ tmp'[e.p].bytes = 1)) /\ Finish("", e)
      \/ /\ e.ev = "fsop" /\ pc[e.p] # "idle" /\ Stutter /\ Finish("", e)
 TStuck == /\ verdict = "run" /\ l <= Len(Ev) /\ ~ENABLED TStep
